@@ -109,7 +109,7 @@ func vals(thorough bool) []uint64 {
 	for k := 0; k < 64; k++ {
 		set[1<<k] = true
 		set[1<<k-1] = true
-		set[^(uint64(1)<<k)] = true
+		set[^(uint64(1) << k)] = true
 	}
 	var out []uint64
 	for v := range set {
